@@ -136,6 +136,7 @@ def run(chk, tier):
                                  "case": case.describe()}
             finally:
                 sys.setswitchinterval(old)
+    engagement_events(env, rnd)
     judge_pool(chk, traces, meta, OWN)
     c03.judge(chk, env.rec, OWN)
     chk.extra["opcode_steps"] = steps
@@ -187,3 +188,25 @@ def replay(chk, path):
                 chk.violation(v, json.dumps(r["meta"], default=str)[:500], r)
     else:
         c03.replay(chk, path)
+
+
+def engagement_events(env, rnd):
+    """beyond the listed properties (X00): when does a cube decide to use its pool?"""
+    import catii.ccubes as CC
+    import catii.xcubes as XC
+    from unittest import mock
+    for _ in range(40):
+        big = rnd.choice([4, 8, 12, 30])
+        nd = rnd.choice([1, 2])
+        extra = [rnd.choice([(), (2,), (3,), (2, 2), (1,)]) for _ in range(nd)]
+        n = rnd.choice([0, 1, 2, 3, 5])
+        dims = env.gen.dims(nd, n, [2] * nd, extra)
+        case = cb.Case(dims, (2,) * nd, None, None, False, ("nan",), "count")
+        for kind, mod in (("ccube", CC), ("xcube", XC)):
+            with mock.patch.object(mod, "BIG_REGIONS", big):
+                cube = env.ccube(env.index_dims(case), interacting_shape=(2,) * nd) if kind == "ccube" else env.xcube(dims, interacting_shape=(2,) * nd)
+            env.rec.tid += 1
+            ev = {"tid": env.rec.tid, "prop": "X00", "kind": "engage", "T": int(cube.scaffold_size), "n": n, "big": big,
+                  "parallel": bool(cube.parallel), "dims": [], "commons": []}
+            env.rec.events.append(ev)
+            env.rec.meta[ev["tid"]] = {"cube": kind, "engage": True, "extra_axes": [list(e) for e in extra], "rows": n, "threshold": big}
